@@ -15,7 +15,7 @@ THEOREMS = ['Otel.Idx.splitString_eq', 'Otel.Idx.hexToBinary_eq'] + ['Otel.C16.'
     'b3_64bit_id_left_padded', 'jaeger_64bit_id_left_padded', 'b3_sampling_decision', 'b3_debug_is_sampled',
     'b3_missing_sampling_unsampled', 'b3_two_field_header_presents', 'b3_multi_without_sampled_presents',
     'b3_single_precedes_multi', 'b3_extract_valid_or_unchanged', 'jaeger_extract_valid_or_unchanged',
-    'b3_extract_iff', 'jaeger_extract_iff')]
+    'b3_extract_iff', 'jaeger_extract_iff', 'never_oob', 'extract_valid_or_unchanged')]
 HARNESSES = [Harness('f_c16', ['harness/f_c16.cc'])]
 H = 'f_c16'
 RULE = ('inject / round trip: all 256 flag bytes x random and edge ids x {B3 single, B3 multi, Jaeger}; extract: valid headers '
@@ -138,20 +138,20 @@ def generate(rng, tier):
     ops = ['b3 inject-single', 'b3 inject-multi', 'b3 rt-single', 'b3 rt-multi', 'jg inject', 'jg rt']
     # ---- inject / round trip: all 256 flag bytes x ids x three propagators
     for f in range(256):
-        for _ in range(20 if big else 2):
+        for _ in range(60 if big else 2):
             tid = rand_id(rng, 16); sid = rand_id(rng, 8)
             if tid == bytes(16) or sid == bytes(8):
                 tid = bytes(15) + b'\x01'; sid = b'\x01' + bytes(7)
             for op in ops:
                 out.append(Case(f'{op} {tid.hex()} {sid.hex()} {f:02x}', H, ('inject' if 'inject' in op else 'roundtrip', 'all-flags')))
-    for _ in range(20000 if big else 600):
+    for _ in range(60000 if big else 600):
         tid = rand_id(rng, 16); sid = rand_id(rng, 8)
         op = rng.choice(ops)
         out.append(Case(f'{op} {tid.hex()} {sid.hex()} {rng.randrange(256):02x}', H, ('inject' if 'inject' in op else 'roundtrip', 'random-ids')))
     # ---- B3 extract: documented headers
-    for _ in range(30000 if big else 1500):
+    for _ in range(100000 if big else 1500):
         out.append(Case(f'b3 extract {hx(valid_b3(rng))} - - -', H, ('extract', 'b3-valid-single')))
-    for _ in range(30000 if big else 1500):
+    for _ in range(100000 if big else 1500):
         tid = hexcase(rng, rand_id(rng, rng.choice([16, 16, 8]))); sid = hexcase(rng, rand_id(rng, 8))
         smp = rng.choice([b'1', b'0', b'd', b'', b'', b'true', b'01', b'D', b'2', b'\x00', b' 1', b'1 '])
         out.append(Case(f'b3 extract - {hx(tid)} {hx(sid)} {hx(smp)}', H, ('extract', 'b3-valid-multi')))
@@ -181,7 +181,7 @@ def generate(rng, tier):
             out.append(Case(f'b3 extract - {hx(t)} {hx(s)} {hx(b"1")}', H, ('extract', 'b3-id-lengths')))
             out.append(Case(f'jg extract {hx(t + b":" + s + b":0:1")}', H, ('extract', 'jaeger-id-lengths')))
     # ---- Jaeger documented headers, flags field sweep
-    for _ in range(30000 if big else 1500):
+    for _ in range(100000 if big else 1500):
         out.append(Case(f'jg extract {hx(valid_jg(rng))}', H, ('extract', 'jaeger-valid')))
     tj = b'4bf92f3577b34da6a3ce929d0e0e4736:0102030405060708:0:'
     for f in range(256):
@@ -205,7 +205,7 @@ def generate(rng, tier):
             else:
                 out.append(Case(f'jg extract {hx(fm)}', H, ('extract', 'separators')))
     # ---- structural mutations
-    for _ in range(100000 if big else 4000):
+    for _ in range(300000 if big else 4000):
         if rng.random() < 0.5:
             out.append(Case(f'b3 extract {hx(mutate(rng, valid_b3(rng), 45))} - - -', H, ('extract', 'b3-mutation')))
         else:
